@@ -101,6 +101,20 @@ func (h *Hub) RunJobToEnd(id, jobType string, limit time.Duration) (started bool
 	return true, h.WaitJobsIdle(limit), nil
 }
 
+// RunJobByTrigger lets simulated time pass until the job's own cron trigger has fired and the run has ended: the run
+// then uses the pipeline, source, sink and transform objects the scheduler built when the job was added, which live
+// as long as the job is configured (a run started through RunJob builds new ones).
+func (h *Hub) RunJobByTrigger(limit time.Duration) (ended bool) {
+	fire := time.Now().Add(10 * time.Minute)
+	for _, e := range h.Full.Sched.GetScheduleEntries().Entries {
+		if e.Next.After(time.Now()) && e.Next.Before(fire.Add(time.Second)) {
+			fire = e.Next
+		}
+	}
+	time.Sleep(time.Until(fire) + time.Second)
+	return h.WaitJobsIdle(limit)
+}
+
 // WaitJobsIdle lets simulated time pass until no job is running.
 func (h *Hub) WaitJobsIdle(limit time.Duration) bool {
 	deadline := time.Now().Add(limit)
